@@ -66,7 +66,24 @@ var lockOps = []lop{
 	}},
 }
 
-type scenario struct{ threads [][]int } // op indices per thread
+type scenario struct {
+	threads  [][]int // op indices per thread
+	twoFiles bool    // caller 0 works on one file, the other callers on another (the library is not thread safe as a whole)
+}
+
+func (s scenario) file(fn string, t int) string {
+	if s.twoFiles && t > 0 {
+		return fn + "-other"
+	}
+	return fn
+}
+
+func (s scenario) dump(fn string) string {
+	if s.twoFiles {
+		return dumpKey(fn) + "##" + dumpKey(fn+"-other")
+	}
+	return dumpKey(fn)
+}
 
 func (s scenario) String() string {
 	var parts []string
@@ -77,6 +94,9 @@ func (s scenario) String() string {
 		}
 		parts = append(parts, strings.Join(ns, ";"))
 	}
+	if s.twoFiles {
+		return strings.Join(parts, " || ") + " [caller 0 on another file]"
+	}
 	return strings.Join(parts, " || ")
 }
 
@@ -84,6 +104,8 @@ func initFile(fn string) {
 	hdf5.FakeReset()
 	hdf5.FakePutDataset(fn, "/d", []int{2, 3}, []float64{10, 11, 12, 13, 14, 15})
 	hdf5.FakePutStrings(fn, "/names", []string{"alpha", "beta"}, 8)
+	hdf5.FakePutDataset(fn+"-other", "/d", []int{2, 3}, []float64{10, 11, 12, 13, 14, 15})
+	hdf5.FakePutStrings(fn+"-other", "/names", []string{"alpha", "beta"}, 8)
 }
 
 func dumpKey(fn string) string {
@@ -121,9 +143,9 @@ func sequentialOutcomes(fn string, sc scenario) map[string]bool {
 				res[t] = make([]string, len(sc.threads[t]))
 			}
 			for _, st := range order {
-				res[st[0]][st[1]] = lockOps[sc.threads[st[0]][st[1]]].run(fn, st[0])
+				res[st[0]][st[1]] = lockOps[sc.threads[st[0]][st[1]]].run(sc.file(fn, st[0]), st[0])
 			}
-			out[fmt.Sprint(res)+"#"+dumpKey(fn)] = true
+			out[fmt.Sprint(res)+"#"+sc.dump(fn)] = true
 		}
 	}
 	rec()
@@ -190,7 +212,7 @@ func runScenario(sc scenario, r *vf.Rec) {
 				t := t
 				vrt.Go(func() {
 					for k, o := range sc.threads[t] {
-						res[t][k] = lockOps[o].run(fn, t)
+						res[t][k] = lockOps[o].run(sc.file(fn, t), t)
 					}
 					done.Send(t)
 				})
@@ -203,7 +225,7 @@ func runScenario(sc scenario, r *vf.Rec) {
 			if bad := lockMonitor(rr.Events); bad != "" {
 				return sched.Outcome{Key: "monitor", Problem: "lock-discipline/" + strings.SplitN(bad, ":", 2)[0], Detail: bad}
 			}
-			key := fmt.Sprint(res) + "#" + dumpKey(fn)
+			key := fmt.Sprint(res) + "#" + sc.dump(fn)
 			if !allowed[key] {
 				return sched.Outcome{Key: key, Problem: "not-linearizable", Detail: "results and final file content equal no sequential order of the operations: " + key}
 			}
@@ -237,7 +259,10 @@ func lockScenarios(tier string) []scenario {
 	n := len(lockOps)
 	for a := 0; a < n; a++ {
 		for b := 0; b < n; b++ {
-			out = append(out, scenario{[][]int{{a}, {b}}})
+			out = append(out, scenario{threads: [][]int{{a}, {b}}})
+			if b >= a {
+				out = append(out, scenario{threads: [][]int{{a}, {b}}, twoFiles: true})
+			}
 		}
 	}
 	for a := 0; a < n; a++ {
@@ -246,7 +271,7 @@ func lockScenarios(tier string) []scenario {
 				if tier == "quick" && (a+b+c)%3 != 0 {
 					continue
 				}
-				out = append(out, scenario{[][]int{{a}, {b}, {c}}})
+				out = append(out, scenario{threads: [][]int{{a}, {b}, {c}}})
 			}
 		}
 	}
@@ -256,9 +281,12 @@ func lockScenarios(tier string) []scenario {
 			if tier == "quick" && (a*n+b)%4 != 0 {
 				continue
 			}
-			out = append(out, scenario{[][]int{{a, b}, {5, 0}}}) // against Write;Load
+			out = append(out, scenario{threads: [][]int{{a, b}, {5, 0}}}) // against Write;Load
+			if (a*n+b)%4 == 1 {
+				out = append(out, scenario{threads: [][]int{{a, b}, {5, 0}}, twoFiles: true})
+			}
 			if tier == "thorough" {
-				out = append(out, scenario{[][]int{{a, b}, {7, 8}}}, scenario{[][]int{{a, b}, {6, 3}}})
+				out = append(out, scenario{threads: [][]int{{a, b}, {7, 8}}}, scenario{threads: [][]int{{a, b}, {6, 3}}}, scenario{threads: [][]int{{a, b}, {7, 8}}, twoFiles: true})
 			}
 		}
 	}
